@@ -19,6 +19,7 @@ import (
 	"fmt"
 	"net/http"
 	"net/url"
+	"strings"
 
 	"github.com/gobeam/stringy"
 	"k8s.io/apimachinery/pkg/api/errors"
@@ -167,6 +168,13 @@ func newRequestForProxy(location *url.URL, req *http.Request, _ string) (*http.R
 	// WithContext creates a shallow clone of the request with the same context.
 	newReq := req.WithContext(newCtx)
 	newReq.Header = utilnet.CloneHeader(req.Header)
+	// the impersonation filter has consumed what the client was allowed to ask for, and the transport
+	// adds the gateway's own impersonation headers: nothing of that family may pass through as sent
+	for name := range newReq.Header {
+		if strings.HasPrefix(http.CanonicalHeaderKey(name), "Impersonate-") {
+			delete(newReq.Header, name)
+		}
+	}
 	newReq.URL = location
 
 	return newReq, cancel
